@@ -110,7 +110,7 @@ theorem splitEscLoop_fuel (str : Bytes) (sep esc : UInt8) (p : Bool) (fuel k i :
     split
     · rfl
     · cases idxC str i with
-      | error err => rfl
+      | error e => rfl
       | ok c =>
         simp only [bind, Except.bind]
         repeat' split
